@@ -614,8 +614,81 @@ def handleD (outer : String) : String :=
       s!"weak={f (some .ref)} proto_none={f none} proto_ref={f (some .ref)}"
   | none => "bad-case"
 
+open TraitsVerif.Model.RefLedger.Warn in
+/-- `W|src|cls|mode|access|hold`: a default computation failing with an exception of class `cls` under warnings
+filter `mode`, asked for through `access`; three failures in a row. -/
+def handleW (cls mode access : String) : String :=
+  let attrErr := cls == "AttributeError" || cls == "AttrSub"
+  let mode? : Option Mode := match mode with
+    | "default" => some .dflt | "error" => some .error | "ignore" => some .ignore | "always" => some .always
+    | _ => none
+  let access? : Option Access := match access with
+    | "getattr" => some .getattr | "hasattr" => some .hasattr | "getattr3" => some .getattr3
+    | "trait_get" => some .traitGet | "default_value_for" => some .defaultValueFor
+    | "setattr-notify" => some .setattrNotify
+    | _ => none
+  match mode?, access? with
+  | some m, some a =>
+    let o := observe attrErr m a
+    let name := match o.out with | .orig => "orig" | .warning => "warning" | .swallowed => "swallowed"
+    let b (x : Bool) := if x then "1" else "0"
+    let line := s!"out={name} cause={b o.cause} warned={b o.warned} held={o.held} after={o.after}"
+    " / ".intercalate [line, line, line]
+  | _, _ => "bad-case"
+
+open TraitsVerif.Model.RefLedger.Raw in
+/-- `A|holds|op;op;…`: raw CTrait calls on three traits (slot `6·t + f`) and six payloads; `holds[i]` is `h`
+(the caller keeps references: the count relative to the start is printed) or `s` (only the traits own it: `+`
+alive, `.` not).  ` !i`: payload `i` was dying at a checkpoint while a slot still pointed to it. -/
+def handleA (holds ops : String) : String :=
+  let hs := (clean holds).toList
+  let big : Int := 1000
+  let tracked (o : Nat) : Bool := hs[o]? == some 'h'
+  let s0 : MS := { ptr := List.replicate 18 none, rc := fun o => if tracked o then big else 0 }
+  let block (t : Nat) : List Nat := (List.range 6).map (· + 6 * t)
+  let compileOp (ws : List String) : Option (List Op) :=
+    match ws with
+    | ["ps", t, p] => do let t ← t.toNat?; let p ← p.toNat?; pure [.set (6 * t) p]
+    | ["v", t, p] => do let t ← t.toNat?; let p ← p.toNat?; pure [.setEarly (6 * t + 1) p]
+    | ["dv", t, p] => do let t ← t.toNat?; let p ← p.toNat?; pure [.set (6 * t + 2) p]
+    | ["h", t, p] => do let t ← t.toNat?; let p ← p.toNat?; pure [.set (6 * t + 5) p]
+    | ["pr", t, g, s, v] => do
+      let t ← t.toNat?; let g ← g.toNat?; let s ← s.toNat?
+      let v ← (if v == "n" then some none else v.toNat?.map some)
+      pure [.put [(6 * t + 3, some g), (6 * t + 4, some s), (6 * t + 1, v)]]
+    | ["cl", t, s] => do let t ← t.toNat?; let s ← s.toNat?; pure [.copy (block t) (block s)]
+    | ["ss", t, s] => do let t ← t.toNat?; let s ← s.toNat?; pure [.restate (block t) (block s)]
+    | ["re", t, f] => do
+      let t ← t.toNat?
+      let i ← (match f with
+        | "post" => some 0 | "validate" => some 1 | "dflt" => some 2 | "handler" => some 5 | _ => none)
+      pure [.reset (6 * t + i) (f == "validate")]
+    | ["drop", t] => do
+      let t ← t.toNat?
+      -- trait_clear: default_value, py_validate, py_post_setattr, delegate_name, delegate_prefix, handler
+      pure ([2, 1, 0, 3, 4, 5].map (fun f => Op.clear (6 * t + f)))
+    | ["rd", t] => do let t ← t.toNat?; pure [.read (block t)]
+    | _ => none
+  let showState (s : MS) (cs : List MS) : String :=
+    let cells := (List.range 6).map (fun o =>
+      if tracked o then toString (s.rc o - big) else if s.rc o > 0 then "+" else ".")
+    " ".intercalate cells ++ String.join ((visibleDying cs (List.range 6)).map (fun o => s!" !{o}"))
+  let rec go (s : MS) : List String → List String
+    | [] => []
+    | w :: rest =>
+      match compileOp (words w) with
+      | none => ["bad-case"]
+      | some os =>
+        let r := os.foldl (fun (acc : List MS × MS) op =>
+          let st := step acc.2 op
+          (acc.1 ++ st.1, st.2)) ([], s)
+        showState r.2 r.1 :: go r.2 rest
+  ";".intercalate (go s0 ((fields ops ";").filter (· ≠ "")))
+
 def handle (line : String) : String :=
   match (clean line).splitOn "|" with
+  | ["W", _, cls, mode, access, _] => handleW (clean cls) (clean mode) (clean access)
+  | ["A", holds, ops] => handleA holds ops
   | ["P", decls, hist, copies] => handleP decls hist copies
   | ["T", ops] => handleT ops
   | ["R", cfg, ops] => handleR cfg ops
